@@ -245,6 +245,15 @@ func jobC14(c *rt.Ctx) {
 		if k.Equal(PrivateKey(k[:63])) || pub.Equal(PublicKey(pub[:31])) || k.Equal(PrivateKey(append(append([]byte{}, k...), 0))) {
 			c.Violation("C14 equal prefix", "Equal true for a prefix / extension", nil)
 		}
+		// a longer view that starts with the key (an open-ended slice into a packed array): every excess
+		// length, in particular multiples of 256 (a length compared through a byte)
+		for _, extra := range []int{1, 31, 32, 64, 255, 256, 257, 512, 65536} {
+			lk := append(append([]byte{}, k...), make([]byte, extra)...)
+			lp := append(append([]byte{}, pub...), make([]byte, extra)...)
+			if k.Equal(PrivateKey(lk)) || PrivateKey(lk).Equal(k) || pub.Equal(PublicKey(lp)) || PublicKey(lp).Equal(pub) {
+				c.Violation("C14 equal extension", fmt.Sprintf("Equal true for a key extended by %d bytes", extra), map[string]interface{}{"extra": extra})
+			}
+		}
 	}
 	// accessors
 	ns := 64
